@@ -73,16 +73,21 @@ def thin(ctx, items, key, frac=0.25, keep=None):
 class Clock:
     """wall-clock bound on what a run does once it has a failing input (shrinking, confirming, looking for more)"""
 
-    def __init__(self, ctx, after_failure=60.0):
+    def __init__(self, ctx, after_failure=60.0, total=None):
         self.limit = after_failure if ambient(ctx) else 3 * after_failure
         self.t_fail = None
+        # the whole search of one run (the large budget of a drifted tree included): ambient children a quarter
+        if total is None:
+            total = (45.0 if ambient(ctx) else 180.0) * (1 if getattr(ctx, 'quick', True) else 5)
+        self.t0, self.total = time.time(), total
 
     def failed(self):
         if self.t_fail is None:
             self.t_fail = time.time()
 
     def expired(self):
-        return self.t_fail is not None and time.time() - self.t_fail > self.limit
+        now = time.time()
+        return (self.t_fail is not None and now - self.t_fail > self.limit) or now - self.t0 > self.total
 
 
 def bound(fmt):
